@@ -855,6 +855,19 @@ def apply_switches(specs, names, forms, built, allow_known):
                     del form["group"]
                     built.excluded += 1
 
+    # a parameter driven (dependency) by a member of such a group inherits the trigger: its driver's
+    # `enabled` is what the propagation overwrites
+    for _ in range(n + 1):
+        grew = False
+        for name in names:
+            driver = forms[name].get("dependency")
+            if driver in built.known and not built.known[driver] <= built.known.get(name, set()):
+                built.known.setdefault(name, set()).update(
+                    t for t in built.known[driver] if t == "group-owner-propagation")
+                grew = True
+        if not grew:
+            break
+
     for i, spec in enumerate(specs):
         form = forms[names[i]]
         meta = built.meta[names[i]]
